@@ -16,6 +16,7 @@ import NomtModel.Driver.PipelineMode
 import NomtModel.Driver.WalkerMode
 import NomtModel.Driver.BranchUpdMode
 import NomtModel.Driver.SeekMode
+import NomtModel.Driver.SeekerMode
 import NomtModel.Driver.PrepSyncMode
 /-!
 `nomt_model`: the executable Lean model behind a line protocol.
@@ -52,5 +53,6 @@ def main (args : List String) : IO UInt32 := do
   | ["walker"] => loop stdin stdout walkerStep {}; return 0
   | ["branchupd"] => loop stdin stdout branchupdStep {}; return 0
   | ["seek"] => loop stdin stdout seekStep {}; return 0
+  | ["seeker"] => loop stdin stdout seekerStep {}; return 0
   | ["prepsync"] => loop stdin stdout prepsyncStep (); return 0
   | _ => IO.eprintln "usage: nomt_model <core|...>"; return 2
